@@ -58,6 +58,14 @@ add("C09", "exploration",
     "Trusted: the model's exact equality (Fraction-based), nlrun serialiser, Hypothesis. Key representative and iteration order not compared.",
     "DESIGN.md §3 C09")
 
+add("C10", "exploration",
+    "exhaustive bounded grid enumeration against Python list/bytes indexing, plus Hypothesis-generated extreme index/slice bounds",
+    "All eight sequence kinds x lengths 0..6 (0..9 thorough) x every index in [-len-3, len+3] and around +-2^31/2^63/2^64/10^30 "
+    "(also small values in big-integer representation and non-integers) x all slice-bound pairs x every accessor in two call forms "
+    "x every write form; a process abort on a tiny sequence is isolated and reported as a violation.",
+    "Trusted: Python slicing semantics, nlrun serialiser. Multi-byte strings only for s[i] / s[a:b]; slice bounds beyond 64 bits may raise.",
+    "DESIGN.md §3 C10")
+
 NOT_APPLICABLE = {
 }
 
